@@ -391,7 +391,7 @@ def run (a : Args) : Result :=
         | .ok fs => ⟨.ok, fs⟩
         | .error _ => ⟨.error, []⟩
       | _, _ => ⟨.error, []⟩
-    | cmd => loop cmd (enum ((a.inputs.map (·.laser)).zip outs) |>.map fun (k, l, o) => (k, l, o)) []
+    | cmd => loop cmd (enum ((a.inputs.map (·.laser)).zip outs)) []
 
 /-- what the property says a run leaves behind -/
 def specRun (a : Args) : Result :=
@@ -419,5 +419,9 @@ def specRun (a : Args) : Result :=
       | .filter f sel =>
         ⟨.ok, (enum ((a.inputs.map (·.laser)).zip outs)).flatMap fun (k, l, out) =>
           specFiles a.format (filterSpec (f k) sel l) out⟩
+
+/-- file `f` is the output `out` itself or one of its per-element text images -/
+def placedAt (f : File) (out : Path) : Prop :=
+  f.path = out ∨ ∃ n, f.path = { out with stem := out.stem ++ "_" ++ n }
 
 end Pew.Cli
